@@ -94,14 +94,12 @@ def parse_dump(text):
                 name, params = m.groups()
                 f = Function(name, _params(params), "()", "fn")
             else:
-                m = HEADER_CONST.match(l)
-                if m:
-                    f = Function(m.group(1), [], m.group(2), "const")
-                else:
-                    m = HEADER_CONST_SIMPLE.match(l)
-                    if m:
-                        f = Function(m.group(1), [], m.group(2), "const")
-                        f.simple_const = m.group(3)
+                m = re.match(r"^(?:const|static(?: mut)?) (.*) = (\{|const .+;)$", l)
+                if m and ": " in m.group(1):
+                    nm, ty = m.group(1).rsplit(": ", 1)
+                    f = Function(nm, [], ty, "const")
+                    if m.group(2) != "{":
+                        f.simple_const = m.group(2)[len("const "):-1]
                         funcs.append(f)
                         i += 1
                         continue
